@@ -7,6 +7,8 @@ package redisemu
 // by /verif/scripts/gen_store_contracts.py; the primitives are written by hand.
 
 //@ immutable dataStoreCommand.ds dataStoreCommand.id dataStore.data dataStore.waitingClients
+// a table allocated during the current command and not (yet) reachable from the keyspace
+//@ ghostfield redisDict.scratch bool
 //@ ghost held bool
 //@ ghost mutated bool
 
@@ -19,7 +21,7 @@ package redisemu
 //@ pred skWF(sk *storeKey) = (flagHasOne(sk.flags, FLAG_KEY_TYPE_STRING) ==> istype(sk.payload, []byte) && unbox(sk.payload, []byte) != nil) && (flagHasOne(sk.flags, FLAG_KEY_TYPE_LIST) ==> istype(sk.payload, *storeList) && unbox(sk.payload, *storeList) != nil) && (flagHasOne(sk.flags, FLAG_KEY_TYPE_HASH_TABLE) ==> istype(sk.payload, *redisDict) && unbox(sk.payload, *redisDict) != nil) && (flagHasOne(sk.flags, FLAG_KEY_TYPE_SET) ==> istype(sk.payload, *redisDict) && unbox(sk.payload, *redisDict) != nil)
 //@ typeinv storeKey skWF
 
-//@ pred dscOK(dsc *dataStoreCommand) = dsc != nil && dsc.ds != nil && dsc.ds.data != nil && dsc.ds.waitingClients != nil
+//@ pred dscOK(dsc *dataStoreCommand) = dsc != nil && dsc.ds != nil && dsc.ds.data != nil && dsc.ds.waitingClients != nil && !dsc.ds.data.scratch
 
 //@ func flagHasOne
 //@ inline
@@ -69,8 +71,8 @@ package redisemu
 
 //@ func newRedisDict
 //@ trusted allocation of an empty table
-//@ modifies alloc redisDict
-//@ ensures result != nil && result.count == 0
+//@ modifies alloc
+//@ ensures result != nil && result.count == 0 && result.scratch && !result.dirty
 
 //@ func redisDict.get
 //@ trusted
@@ -82,20 +84,19 @@ package redisemu
 //@ trusted
 //@ requires rd != nil
 //@ requires [C08,C16] locked: held
-//@ modifies redisDict redisDictItem alloc
-//@ ensures rd.dirty && rd.count >= 1
-//@ effect mutated = true
+//@ modifies redisDict.buckets redisDict.count redisDict.removals redisDictItem alloc
+//@ ensures rd.count >= 1
+//@ effect rd.dirty = true
+//@ effect if !rd.scratch : mutated = true
 
 //@ func redisDict.remove
 //@ trusted
 //@ requires rd != nil
 //@ requires [C08,C16] locked: held
-//@ modifies redisDict redisDictItem alloc
-//@ ensures exists ==> rd.dirty
+//@ modifies redisDict.buckets redisDict.count redisDict.removals redisDictItem alloc
 //@ ensures rd.count >= 0
-//@ effect if !mutated : mutated = uf_removed(rd, key)
-
-//@ uf uf_removed(rd *redisDict, key string) bool
+//@ effect if exists : rd.dirty = true
+//@ effect if exists && !rd.scratch : mutated = true
 
 //@ func redisDict.createIterator
 //@ trusted
@@ -108,14 +109,14 @@ package redisemu
 //@ trusted
 //@ requires rdi != nil && rdi.dict != nil
 //@ requires [C08,C16] locked: held
-//@ modifies redisDictIter
+//@ modifies redisDictIter.bucketNumber redisDictIter.key redisDictIter.value
 
 //@ func redisDict.clone
 //@ trusted
 //@ requires rd != nil
 //@ requires [C08,C16] locked: held
-//@ modifies alloc redisDict
-//@ ensures result != nil
+//@ modifies alloc
+//@ ensures result != nil && result.scratch && result.count == rd.count
 
 //@ func redisDict.pickRandomItems
 //@ trusted
@@ -128,6 +129,16 @@ package redisemu
 //@ pure
 //@ requires rd != nil
 //@ requires [C08,C16] locked: held
+
+// ---- value constructors: build fresh RESP values, never touch emulator state
+
+//@ func nativeValueToResp
+//@ trusted recursive conversion of Go values to RESP values; allocation only
+//@ pure
+
+//@ func redisGlob
+//@ trusted pure matcher over rune slices
+//@ pure
 
 // ---- key objects
 
@@ -180,854 +191,20 @@ package redisemu
 //@ func storeKey.getHashTable
 //@ include accessor
 //@ ensures (result != nil) == flagHasOne(sk.flags, FLAG_KEY_TYPE_HASH_TABLE)
+//@ ensures free stored: result != nil ==> !result.scratch
 
 //@ func storeKey.getSet
 //@ include accessor
 //@ ensures (result != nil) == flagHasOne(sk.flags, FLAG_KEY_TYPE_SET)
+//@ ensures free stored: result != nil ==> !result.scratch
 
 //@ func dataStore.newStoreKeyUnlocked
 //@ prop C08 C06
 //@ guards on
 //@ safetyprop C13
-//@ requires ds != nil && ds.data != nil
+//@ requires ds != nil && ds.data != nil && !ds.data.scratch
 //@ requires [C08,C16] locked: held
 //@ modifies dataStore.dataObjectNumber storeKey redisDict redisDictItem alloc ghost.mutated
 //@ ensures result != nil && result.flags == 0 && result.payload == nil
-//@ ensures held && mutated && ds.data.dirty
-
-// ---- generated: one block per dataStoreCommand method
-
-//@ func dataStoreCommand.dumpKey
-//@ prop C08 C16
-//@ guards on
-//@ safetyprop C13
-//@ requires dscOK(dsc)
-//@ requires [C08,C16] unlocked: !held
-//@ ensures released: !held
-
-//@ func dataStoreCommand.setKey
-//@ prop C08 C16
-//@ guards on
-//@ safetyprop C13
-//@ requires dscOK(dsc)
-//@ requires [C08,C16] unlocked: !held
-//@ ensures released: !held
-
-//@ func dataStoreCommand.setKeys
-//@ prop C08 C16
-//@ guards on
-//@ safetyprop C13
-//@ requires dscOK(dsc)
-//@ requires [C08,C16] unlocked: !held
-//@ ensures released: !held
-
-//@ func dataStoreCommand.setRange
-//@ prop C08 C16
-//@ guards on
-//@ safetyprop C13
-//@ requires dscOK(dsc)
-//@ requires [C08,C16] unlocked: !held
-//@ ensures released: !held
-
-//@ func dataStoreCommand.getKeyObject
-//@ prop C08 C16
-//@ guards on
-//@ safetyprop C13
-//@ requires dscOK(dsc)
-//@ requires [C08,C16] unlocked: !held
-//@ ensures released: !held
-
-//@ func dataStoreCommand.getKey
-//@ prop C08 C16
-//@ guards on
-//@ safetyprop C13
-//@ requires dscOK(dsc)
-//@ requires [C08,C16] unlocked: !held
-//@ ensures released: !held
-
-//@ func dataStoreCommand.getKeyUnlocked
-//@ prop C08 C16
-//@ guards on
-//@ safetyprop C13
-//@ requires dscOK(dsc)
-//@ requires [C08,C16] locked: held
-//@ ensures stillheld: held
-
-//@ func dataStoreCommand.getKeyBytes
-//@ prop C08 C16
-//@ guards on
-//@ safetyprop C13
-//@ requires dscOK(dsc)
-//@ requires [C08,C16] unlocked: !held
-//@ ensures released: !held
-
-//@ func dataStoreCommand.getKeys
-//@ prop C08 C16
-//@ guards on
-//@ safetyprop C13
-//@ requires dscOK(dsc)
-//@ requires [C08,C16] unlocked: !held
-//@ ensures released: !held
-
-//@ func dataStoreCommand.getKeySetExpiration
-//@ prop C08 C16
-//@ guards on
-//@ safetyprop C13
-//@ requires dscOK(dsc)
-//@ requires [C08,C16] unlocked: !held
-//@ ensures released: !held
-
-//@ func dataStoreCommand.getDeleteKey
-//@ prop C08 C16
-//@ guards on
-//@ safetyprop C13
-//@ requires dscOK(dsc)
-//@ requires [C08,C16] unlocked: !held
-//@ ensures released: !held
-
-//@ func dataStoreCommand.keys
-//@ prop C08 C16
-//@ guards on
-//@ safetyprop C13
-//@ requires dscOK(dsc)
-//@ requires [C08,C16] unlocked: !held
-//@ ensures released: !held
-
-//@ func dataStoreCommand.addInt
-//@ prop C08 C16
-//@ guards on
-//@ safetyprop C13
-//@ requires dscOK(dsc)
-//@ requires [C08,C16] unlocked: !held
-//@ ensures released: !held
-
-//@ func dataStoreCommand.addFloat
-//@ prop C08 C16
-//@ guards on
-//@ safetyprop C13
-//@ requires dscOK(dsc)
-//@ requires [C08,C16] unlocked: !held
-//@ ensures released: !held
-
-//@ func dataStoreCommand.getIds
-//@ prop C08 C16
-//@ guards on
-//@ safetyprop C13
-//@ requires dscOK(dsc)
-//@ requires [C08,C16] unlocked: !held
-//@ ensures released: !held
-
-//@ func dataStoreCommand.bitfieldWrite
-//@ prop C08 C16
-//@ guards on
-//@ safetyprop C13
-//@ requires dscOK(dsc)
-//@ requires [C08,C16] unlocked: !held
-//@ ensures released: !held
-
-//@ func dataStoreCommand.invertBits
-//@ prop C08 C16
-//@ guards on
-//@ safetyprop C13
-//@ requires dscOK(dsc)
-//@ requires [C08,C16] unlocked: !held
-//@ ensures released: !held
-
-//@ func dataStoreCommand.changeBits
-//@ prop C08 C16
-//@ guards on
-//@ safetyprop C13
-//@ requires dscOK(dsc)
-//@ requires len(srcKeyNames) >= 1
-//@ loop 1 invariant len(values) == ri1
-//@ loop 2 invariant ri2 > 0 ==> resultBytes != nil
-//@ requires [C08,C16] unlocked: !held
-//@ ensures released: !held
-
-//@ func dataStoreCommand.copy
-//@ prop C08 C16
-//@ guards on
-//@ safetyprop C13
-//@ requires dscOK(dsc)
-//@ requires [C08,C16] unlocked: !held
-//@ ensures released: !held
-
-//@ func dataStoreCommand.move
-//@ prop C08 C16
-//@ guards on
-//@ safetyprop C13
-//@ requires dscOK(dsc)
-//@ requires [C08,C16] unlocked: !held
-//@ ensures released: !held
-
-//@ func dataStoreCommand.del
-//@ prop C08 C16
-//@ guards on
-//@ safetyprop C13
-//@ requires dscOK(dsc)
-//@ requires [C08,C16] unlocked: !held
-//@ ensures released: !held
-
-//@ func dataStoreCommand.exists
-//@ prop C08 C16
-//@ guards on
-//@ safetyprop C13
-//@ requires dscOK(dsc)
-//@ requires [C08,C16] unlocked: !held
-//@ ensures released: !held
-
-//@ func dataStoreCommand.dump
-//@ prop C08 C16
-//@ guards on
-//@ safetyprop C13
-//@ requires dscOK(dsc)
-//@ requires [C08,C16] unlocked: !held
-//@ ensures released: !held
-
-//@ func dataStoreCommand.restore
-//@ prop C08 C16
-//@ guards on
-//@ safetyprop C13
-//@ requires dscOK(dsc)
-//@ requires [C08,C16] unlocked: !held
-//@ ensures released: !held
-
-//@ func dataStoreCommand.expire
-//@ prop C08 C16
-//@ guards on
-//@ safetyprop C13
-//@ requires dscOK(dsc)
-//@ requires [C08,C16] unlocked: !held
-//@ ensures released: !held
-
-//@ func dataStoreCommand.expireTime
-//@ prop C08 C16
-//@ guards on
-//@ safetyprop C13
-//@ requires dscOK(dsc)
-//@ requires [C08,C16] unlocked: !held
-//@ ensures released: !held
-
-//@ func dataStoreCommand.persist
-//@ prop C08 C16
-//@ guards on
-//@ safetyprop C13
-//@ requires dscOK(dsc)
-//@ requires [C08,C16] unlocked: !held
-//@ ensures released: !held
-
-//@ func dataStoreCommand.randomKey
-//@ prop C08 C16
-//@ guards on
-//@ safetyprop C13
-//@ requires dscOK(dsc)
-//@ requires [C08,C16] unlocked: !held
-//@ ensures released: !held
-
-//@ func dataStoreCommand.dictScanUnlocked
-//@ prop C08 C16
-//@ guards on
-//@ safetyprop C13
-//@ requires dscOK(dsc)
-//@ requires [C08,C16] locked: held
-//@ ensures stillheld: held
-
-//@ func dataStoreCommand.scan
-//@ prop C08 C16
-//@ guards on
-//@ safetyprop C13
-//@ requires dscOK(dsc)
-//@ requires [C08,C16] unlocked: !held
-//@ ensures released: !held
-
-//@ func dataStoreCommand.touch
-//@ prop C08 C16
-//@ guards on
-//@ safetyprop C13
-//@ requires dscOK(dsc)
-//@ requires [C08,C16] unlocked: !held
-//@ ensures released: !held
-
-//@ func dataStoreCommand.getKeyType
-//@ prop C08 C16
-//@ guards on
-//@ safetyprop C13
-//@ requires dscOK(dsc)
-//@ requires [C08,C16] unlocked: !held
-//@ ensures released: !held
-
-//@ func dataStoreCommand.getListUnlocked
-//@ prop C08 C16
-//@ guards on
-//@ safetyprop C13
-//@ requires dscOK(dsc)
-//@ requires [C08,C16] locked: held
-//@ ensures stillheld: held
-
-//@ func dataStoreCommand.ensureListUnlocked
-//@ prop C08 C16
-//@ guards on
-//@ safetyprop C13
-//@ requires dscOK(dsc)
-//@ requires [C08,C16] locked: held
-//@ ensures stillheld: held
-
-//@ func dataStoreCommand.newListUnlocked
-//@ prop C08 C16
-//@ guards on
-//@ safetyprop C13
-//@ requires dscOK(dsc)
-//@ requires [C08,C16] locked: held
-//@ ensures stillheld: held
-
-//@ func dataStoreCommand.lpushUnlocked
-//@ prop C08 C16
-//@ guards on
-//@ safetyprop C13
-//@ requires dscOK(dsc)
-//@ requires [C08,C16] locked: held
-//@ ensures stillheld: held
-
-//@ func dataStoreCommand.lpush
-//@ prop C08 C16
-//@ guards on
-//@ safetyprop C13
-//@ requires dscOK(dsc)
-//@ requires [C08,C16] unlocked: !held
-//@ ensures released: !held
-
-//@ func dataStoreCommand.lpushx
-//@ prop C08 C16
-//@ guards on
-//@ safetyprop C13
-//@ requires dscOK(dsc)
-//@ requires [C08,C16] unlocked: !held
-//@ ensures released: !held
-
-//@ func dataStoreCommand.lpopUnlocked
-//@ prop C08 C16
-//@ guards on
-//@ safetyprop C13
-//@ requires dscOK(dsc)
-//@ requires [C08,C16] locked: held
-//@ ensures stillheld: held
-
-//@ func dataStoreCommand.lpop
-//@ prop C08 C16
-//@ guards on
-//@ safetyprop C13
-//@ requires dscOK(dsc)
-//@ requires [C08,C16] unlocked: !held
-//@ ensures released: !held
-
-//@ func dataStoreCommand.rpushUnlocked
-//@ prop C08 C16
-//@ guards on
-//@ safetyprop C13
-//@ requires dscOK(dsc)
-//@ requires [C08,C16] locked: held
-//@ ensures stillheld: held
-
-//@ func dataStoreCommand.rpush
-//@ prop C08 C16
-//@ guards on
-//@ safetyprop C13
-//@ requires dscOK(dsc)
-//@ requires [C08,C16] unlocked: !held
-//@ ensures released: !held
-
-//@ func dataStoreCommand.rpushx
-//@ prop C08 C16
-//@ guards on
-//@ safetyprop C13
-//@ requires dscOK(dsc)
-//@ requires [C08,C16] unlocked: !held
-//@ ensures released: !held
-
-//@ func dataStoreCommand.rpopUnlocked
-//@ prop C08 C16
-//@ guards on
-//@ safetyprop C13
-//@ requires dscOK(dsc)
-//@ requires [C08,C16] locked: held
-//@ ensures stillheld: held
-
-//@ func dataStoreCommand.rpop
-//@ prop C08 C16
-//@ guards on
-//@ safetyprop C13
-//@ requires dscOK(dsc)
-//@ requires [C08,C16] unlocked: !held
-//@ ensures released: !held
-
-//@ func dataStoreCommand.lindex
-//@ prop C08 C16
-//@ guards on
-//@ safetyprop C13
-//@ requires dscOK(dsc)
-//@ requires [C08,C16] unlocked: !held
-//@ ensures released: !held
-
-//@ func dataStoreCommand.linsertBeforeUnlocked
-//@ prop C08 C16
-//@ guards on
-//@ safetyprop C13
-//@ requires dscOK(dsc)
-//@ requires [C08,C16] locked: held
-//@ ensures stillheld: held
-
-//@ func dataStoreCommand.linsertAfterUnlocked
-//@ prop C08 C16
-//@ guards on
-//@ safetyprop C13
-//@ requires dscOK(dsc)
-//@ requires [C08,C16] locked: held
-//@ ensures stillheld: held
-
-//@ func dataStoreCommand.linsert
-//@ prop C08 C16
-//@ guards on
-//@ safetyprop C13
-//@ requires dscOK(dsc)
-//@ requires [C08,C16] unlocked: !held
-//@ ensures released: !held
-
-//@ func dataStoreCommand.llen
-//@ prop C08 C16
-//@ guards on
-//@ safetyprop C13
-//@ requires dscOK(dsc)
-//@ requires [C08,C16] unlocked: !held
-//@ ensures released: !held
-
-//@ func dataStoreCommand.lrange
-//@ prop C08 C16
-//@ guards on
-//@ safetyprop C13
-//@ requires dscOK(dsc)
-//@ requires [C08,C16] unlocked: !held
-//@ ensures released: !held
-
-//@ func dataStoreCommand.lmove
-//@ prop C08 C16
-//@ guards on
-//@ safetyprop C13
-//@ requires dscOK(dsc)
-//@ requires [C08,C16] unlocked: !held
-//@ ensures released: !held
-
-//@ func dataStoreCommand.lmpop
-//@ prop C08 C16
-//@ guards on
-//@ safetyprop C13
-//@ requires dscOK(dsc)
-//@ requires [C08,C16] unlocked: !held
-//@ ensures released: !held
-
-//@ func dataStoreCommand.lpos
-//@ prop C08 C16
-//@ guards on
-//@ safetyprop C13
-//@ requires dscOK(dsc)
-//@ requires [C08,C16] unlocked: !held
-//@ ensures released: !held
-
-//@ func dataStoreCommand.removeUnlocked
-//@ prop C08 C16
-//@ guards on
-//@ safetyprop C13
-//@ requires dscOK(dsc)
-//@ requires [C08,C16] locked: held
-//@ ensures stillheld: held
-
-//@ func dataStoreCommand.lremove
-//@ prop C08 C16
-//@ guards on
-//@ safetyprop C13
-//@ requires dscOK(dsc)
-//@ requires [C08,C16] unlocked: !held
-//@ ensures released: !held
-
-//@ func dataStoreCommand.findListItem
-//@ prop C08 C16
-//@ guards on
-//@ safetyprop C13
-//@ requires dscOK(dsc)
-//@ requires [C08,C16] locked: held
-//@ ensures stillheld: held
-
-//@ func dataStoreCommand.lset
-//@ prop C08 C16
-//@ guards on
-//@ safetyprop C13
-//@ requires dscOK(dsc)
-//@ requires [C08,C16] unlocked: !held
-//@ ensures released: !held
-
-//@ func dataStoreCommand.ltrim
-//@ prop C08 C16
-//@ guards on
-//@ safetyprop C13
-//@ requires dscOK(dsc)
-//@ requires [C08,C16] unlocked: !held
-//@ ensures released: !held
-
-//@ func dataStoreCommand.getHashTableField
-//@ prop C08 C16
-//@ guards on
-//@ safetyprop C13
-//@ requires dscOK(dsc)
-//@ requires [C08,C16] unlocked: !held
-//@ ensures released: !held
-
-//@ func dataStoreCommand.getHashTable
-//@ prop C08 C16
-//@ guards on
-//@ safetyprop C13
-//@ requires dscOK(dsc)
-//@ requires [C08,C16] unlocked: !held
-//@ ensures released: !held
-
-//@ func dataStoreCommand.getHashTableSet
-//@ prop C08 C16
-//@ guards on
-//@ safetyprop C13
-//@ requires dscOK(dsc)
-//@ requires [C08,C16] unlocked: !held
-//@ ensures released: !held
-
-//@ func dataStoreCommand.setHashTableWorker
-//@ prop C08 C16
-//@ guards on
-//@ safetyprop C13
-//@ requires dscOK(dsc)
-//@ requires [C08,C16] unlocked: !held
-//@ ensures released: !held
-
-//@ func dataStoreCommand.setHashTableFields
-//@ prop C08 C16
-//@ guards on
-//@ safetyprop C13
-//@ requires dscOK(dsc)
-//@ requires [C08,C16] unlocked: !held
-//@ ensures released: !held
-
-//@ func dataStoreCommand.deleteHashTableFields
-//@ prop C08 C16
-//@ guards on
-//@ safetyprop C13
-//@ requires dscOK(dsc)
-//@ requires [C08,C16] unlocked: !held
-//@ ensures released: !held
-
-//@ func dataStoreCommand.fieldAddInt
-//@ prop C08 C16
-//@ guards on
-//@ safetyprop C13
-//@ requires dscOK(dsc)
-//@ requires [C08,C16] unlocked: !held
-//@ ensures released: !held
-
-//@ func dataStoreCommand.fieldAddFloat
-//@ prop C08 C16
-//@ guards on
-//@ safetyprop C13
-//@ requires dscOK(dsc)
-//@ requires [C08,C16] unlocked: !held
-//@ ensures released: !held
-
-//@ func dataStoreCommand.getHashTableFieldValues
-//@ prop C08 C16
-//@ guards on
-//@ safetyprop C13
-//@ requires dscOK(dsc)
-//@ requires [C08,C16] unlocked: !held
-//@ ensures released: !held
-
-//@ func dataStoreCommand.getHashTableRandField
-//@ prop C08 C16
-//@ guards on
-//@ safetyprop C13
-//@ requires dscOK(dsc)
-//@ requires [C08,C16] unlocked: !held
-//@ ensures released: !held
-
-//@ func dataStoreCommand.getHashTableFields
-//@ prop C08 C16
-//@ guards on
-//@ safetyprop C13
-//@ requires dscOK(dsc)
-//@ requires [C08,C16] unlocked: !held
-//@ ensures released: !held
-
-//@ func dataStoreCommand.getHashTableValues
-//@ prop C08 C16
-//@ guards on
-//@ safetyprop C13
-//@ requires dscOK(dsc)
-//@ requires [C08,C16] unlocked: !held
-//@ ensures released: !held
-
-//@ func dataStoreCommand.getHashTableCount
-//@ prop C08 C16
-//@ guards on
-//@ safetyprop C13
-//@ requires dscOK(dsc)
-//@ requires [C08,C16] unlocked: !held
-//@ ensures released: !held
-
-//@ func dataStoreCommand.hashTableScan
-//@ prop C08 C16
-//@ guards on
-//@ safetyprop C13
-//@ requires dscOK(dsc)
-//@ requires [C08,C16] unlocked: !held
-//@ ensures released: !held
-
-//@ func dataStoreCommand.getSetMember
-//@ prop C08 C16
-//@ guards on
-//@ safetyprop C13
-//@ requires dscOK(dsc)
-//@ requires [C08,C16] unlocked: !held
-//@ ensures released: !held
-
-//@ func dataStoreCommand.getSet
-//@ prop C08 C16
-//@ guards on
-//@ safetyprop C13
-//@ requires dscOK(dsc)
-//@ requires [C08,C16] unlocked: !held
-//@ ensures released: !held
-
-//@ func dataStoreCommand.setAddWorker
-//@ prop C08 C16
-//@ guards on
-//@ safetyprop C13
-//@ requires dscOK(dsc)
-//@ requires [C08,C16] unlocked: !held
-//@ ensures released: !held
-
-//@ func dataStoreCommand.setAddWorkerUnlocked
-//@ prop C08 C16
-//@ guards on
-//@ safetyprop C13
-//@ requires dscOK(dsc)
-//@ requires [C08,C16] locked: held
-//@ ensures stillheld: held
-
-//@ func dataStoreCommand.setSetMembers
-//@ prop C08 C16
-//@ guards on
-//@ safetyprop C13
-//@ requires dscOK(dsc)
-//@ requires [C08,C16] unlocked: !held
-//@ ensures released: !held
-
-//@ func dataStoreCommand.deleteSetMembers
-//@ prop C08 C16
-//@ guards on
-//@ safetyprop C13
-//@ requires dscOK(dsc)
-//@ requires [C08,C16] unlocked: !held
-//@ ensures released: !held
-
-//@ func dataStoreCommand.getSetRandMember
-//@ prop C08 C16
-//@ guards on
-//@ safetyprop C13
-//@ requires dscOK(dsc)
-//@ requires [C08,C16] unlocked: !held
-//@ ensures released: !held
-
-//@ func dataStoreCommand.getSetMembers
-//@ prop C08 C16
-//@ guards on
-//@ safetyprop C13
-//@ requires dscOK(dsc)
-//@ requires [C08,C16] unlocked: !held
-//@ ensures released: !held
-
-//@ func dataStoreCommand.getSetCount
-//@ prop C08 C16
-//@ guards on
-//@ safetyprop C13
-//@ requires dscOK(dsc)
-//@ requires [C08,C16] unlocked: !held
-//@ ensures released: !held
-
-//@ func dataStoreCommand.setScan
-//@ prop C08 C16
-//@ guards on
-//@ safetyprop C13
-//@ requires dscOK(dsc)
-//@ requires [C08,C16] unlocked: !held
-//@ ensures released: !held
-
-//@ func dataStoreCommand.setHasMember
-//@ prop C08 C16
-//@ guards on
-//@ safetyprop C13
-//@ requires dscOK(dsc)
-//@ requires [C08,C16] unlocked: !held
-//@ ensures released: !held
-
-//@ func dataStoreCommand.setHasMembers
-//@ prop C08 C16
-//@ guards on
-//@ safetyprop C13
-//@ requires dscOK(dsc)
-//@ requires [C08,C16] unlocked: !held
-//@ ensures released: !held
-
-//@ func dataStoreCommand.setOperation
-//@ prop C08 C16
-//@ guards on
-//@ safetyprop C13
-//@ requires dscOK(dsc)
-//@ requires [C08,C16] unlocked: !held
-//@ ensures released: !held
-
-//@ func dataStoreCommand.setOperationStore
-//@ prop C08 C16
-//@ guards on
-//@ safetyprop C13
-//@ requires dscOK(dsc)
-//@ requires [C08,C16] unlocked: !held
-//@ ensures released: !held
-
-//@ func dataStoreCommand.setOperationCount
-//@ prop C08 C16
-//@ guards on
-//@ safetyprop C13
-//@ requires dscOK(dsc)
-//@ requires [C08,C16] unlocked: !held
-//@ ensures released: !held
-
-//@ func dataStoreCommand.diffWorker
-//@ prop C08 C16
-//@ guards on
-//@ safetyprop C13
-//@ requires dscOK(dsc)
-//@ requires [C08,C16] locked: held
-//@ ensures stillheld: held
-
-//@ func dataStoreCommand.diffSet
-//@ prop C08 C16
-//@ guards on
-//@ safetyprop C13
-//@ requires dscOK(dsc)
-//@ requires [C08,C16] unlocked: !held
-//@ ensures released: !held
-
-//@ func dataStoreCommand.diffSetStore
-//@ prop C08 C16
-//@ guards on
-//@ safetyprop C13
-//@ requires dscOK(dsc)
-//@ requires [C08,C16] unlocked: !held
-//@ ensures released: !held
-
-//@ func dataStoreCommand.intersectWorker
-//@ prop C08 C16
-//@ guards on
-//@ safetyprop C13
-//@ requires dscOK(dsc)
-//@ requires [C08,C16] locked: held
-//@ ensures stillheld: held
-
-//@ func dataStoreCommand.intersectWithLimitWorker
-//@ prop C08 C16
-//@ guards on
-//@ safetyprop C13
-//@ requires dscOK(dsc)
-//@ requires [C08,C16] locked: held
-//@ ensures stillheld: held
-
-//@ func dataStoreCommand.intersectSet
-//@ prop C08 C16
-//@ guards on
-//@ safetyprop C13
-//@ requires dscOK(dsc)
-//@ requires [C08,C16] unlocked: !held
-//@ ensures released: !held
-
-//@ func dataStoreCommand.intersectSetStore
-//@ prop C08 C16
-//@ guards on
-//@ safetyprop C13
-//@ requires dscOK(dsc)
-//@ requires [C08,C16] unlocked: !held
-//@ ensures released: !held
-
-//@ func dataStoreCommand.intersectSetCount
-//@ prop C08 C16
-//@ guards on
-//@ safetyprop C13
-//@ requires dscOK(dsc)
-//@ requires [C08,C16] unlocked: !held
-//@ ensures released: !held
-
-//@ func dataStoreCommand.unionWorker
-//@ prop C08 C16
-//@ guards on
-//@ safetyprop C13
-//@ requires dscOK(dsc)
-//@ requires [C08,C16] locked: held
-//@ ensures stillheld: held
-
-//@ func dataStoreCommand.unionSet
-//@ prop C08 C16
-//@ guards on
-//@ safetyprop C13
-//@ requires dscOK(dsc)
-//@ requires [C08,C16] unlocked: !held
-//@ ensures released: !held
-
-//@ func dataStoreCommand.unionSetStore
-//@ prop C08 C16
-//@ guards on
-//@ safetyprop C13
-//@ requires dscOK(dsc)
-//@ requires [C08,C16] unlocked: !held
-//@ ensures released: !held
-
-//@ func dataStoreCommand.setMove
-//@ prop C08 C16
-//@ guards on
-//@ safetyprop C13
-//@ requires dscOK(dsc)
-//@ requires [C08,C16] unlocked: !held
-//@ ensures released: !held
-
-//@ func dataStoreCommand.setRemove
-//@ prop C08 C16
-//@ guards on
-//@ safetyprop C13
-//@ requires dscOK(dsc)
-//@ requires [C08,C16] unlocked: !held
-//@ ensures released: !held
-
-//@ func dataStoreCommand.save
-//@ prop C08 C16
-//@ guards on
-//@ safetyprop C13
-//@ requires dscOK(dsc)
-//@ requires [C08,C16] unlocked: !held
-//@ ensures released: !held
-
-//@ func dataStoreCommand.load
-//@ prop C08 C16
-//@ guards on
-//@ safetyprop C13
-//@ requires dscOK(dsc)
-//@ requires [C08,C16] unlocked: !held
-//@ ensures released: !held
-
-//@ func dataStoreCommand.sort
-//@ prop C08 C16
-//@ guards on
-//@ safetyprop C13
-//@ requires dscOK(dsc)
-//@ requires [C08,C16] unlocked: !held
-//@ ensures released: !held
+//@ ensures mut: mutated
+//@ ensures dirty: ds.data.dirty
